@@ -25,3 +25,6 @@ func (s *Service) VerifStorage() storage.Storage { return s.storage }
 
 // VerifSwarm exposes the cluster service.
 func (s *Service) VerifSwarm() *cluster.Swarm { return s.cluster }
+
+// VerifOnPeerMessage delivers a message received from a peer to the local subscribers.
+func (s *Service) VerifOnPeerMessage(m *message.Message) { s.onPeerMessage(m) }
